@@ -60,6 +60,15 @@ Theorem C12_params_sane :
   (0 < ParamsC12.wait_before_lock_check_ms)%Z /\ ParamsC12.stale_lock_timeout_ms = 1800000%Z.
 Proof. exact params_sane. Qed.
 
+(* forced refresh of a stale lock (scenario family, not part of the interleaving model above) *)
+Theorem C12_forced_oracle_sound : forall f,
+  check_C12 (CForced f) = true <-> ~ (f_xok f = true /\ f_yok f = true /\ orb (f_exclx f) (f_excly f) = true).
+Proof. exact forced_oracle_spec. Qed.
+
+Theorem C12_forced_ok_meaning : forall old1 saveok old2,
+  forced_ok old1 saveok old2 = true <-> old1 = true /\ saveok = true /\ old2 = true.
+Proof. exact forced_ok_spec. Qed.
+
 Print Assumptions C12_mutex.
 Print Assumptions C12_exclusive_alone.
 Print Assumptions C12_holder_has_file.
@@ -70,3 +79,5 @@ Print Assumptions C12_stale_meaning.
 Print Assumptions C12_model_satisfies_oracle.
 Print Assumptions C12_model_stale_safe.
 Print Assumptions C12_params_sane.
+Print Assumptions C12_forced_oracle_sound.
+Print Assumptions C12_forced_ok_meaning.
